@@ -96,26 +96,13 @@ def spike_family(ctx):
 
 
 def discrete_families(ctx):
-    """{'sync': fam, 'order': fam, 'dir': fam, 'single': fam} classified by the constants their kernels store"""
+    """{'sync': fam, 'order': fam, 'dir': fam, 'single': fam}: classified by the public wrapper that dispatches to them"""
+    from .rules_symmetry import family_kind
     out = {}
-    e = eng(ctx)
-    for f in e.families:
-        if f.wrapper.cls or not e.has_merge_loop(f.py):
-            if not f.wrapper.cls and not e.has_merge_loop(f.py):
-                out['single'] = f
-            continue
-        roles, _ = e.roles_of(f.py)
-        if roles is None or roles.kind != 'cursor':
-            continue
-        if f in (isi_family(ctx), spike_family(ctx)):
-            continue
-        mode, negs, rk = infer_mode(f.py, roles.loop[-1])
-        if mode == 'anti':
-            out['order'] = f
-        elif rk == 'swap':
-            out['dir'] = f
-        else:
-            out['sync'] = f
+    for f in eng(ctx).families:
+        k = family_kind(f)
+        if k in ('sync', 'order', 'dir', 'single'):
+            out[k] = f
     return out
 
 
@@ -528,14 +515,16 @@ P('C06', 'other',
   {'R06.1': 18, 'R06.2': 6, 'R06.3': 7, 'R06.4': 8, 'R06.5': 12})
 
 P('C07', 'other',
-  [lambda c: _sigma(c, eng(c).families, 'R07.1', ('sym',)),
+  [lambda c: merge_idiom_obs(c, [f for f in eng(c).families if not f.wrapper.cls], 'R07.0'),
+   lambda c: _sigma(c, eng(c).families, 'R07.1', ('sym',)),
    lambda c: only_rules(lambda cc: _discrete_rules(cc, ('sync', 'order')), {'R07.3'})(c),
    lambda c: only_rules(_isi_rules, {'R01.3'})(c),
    lambda c: only_rules(lambda cc: r18_1_guarded_divisions(cc, 'R07.5', 'R07.5'), {'R07.5'})(c),
    lambda c: only_rules(lambda cc: r_kernel_call_typestates(cc, ('', '', 'R07.2')), {'R07.2'})(c),
    lambda c: [Ob('R07.6', o.title, o.status, o.where, o.detail, o.key, o.construct, o.extra)
               for o in r_kernel_call_typestates(c, ('R15.1', '', '')) if o.rule == 'R15.1']],
-  "R07.1 train-swap symmetry of all ISI, SPIKE and SPIKE-Sync kernels (9 copies + helpers) as a proof by program symmetry: sigma(P) == P, so "
+  "R07.0 premises of the symmetry proofs: every measure kernel is the strict, exclusive three-way cursor merge (a non-strict comparison would send "
+  "a shared spike time down the train-1 branch only); R07.1 train-swap symmetry of all ISI, SPIKE and SPIKE-Sync kernels (9 copies + helpers) as a proof by program symmetry: sigma(P) == P, so "
   "f(a,b) and f(b,a) are the same computation, bit for bit, for all inputs; R07.2 wrappers pass both trains' arrays in parameter order with the "
   "edges of a reconciled train; R07.3 every stored discrete entry lies between 0 (resp. -mp) and its multiplicity; R07.4 (=R01.3) the ISI value has "
   "the |a-b|/max(a,b,.) shape with the same a, b; R07.5 empty-input conventions are literals behind zero tests; R07.6 the 'auto' threshold a "
